@@ -30,7 +30,10 @@ def validWrite (uf : List AppId) (i : Nat) (e : AppId) : Bool :=
       old.id == i &&
       if e.id == i then isPartialId e.m && subset (keys e.m) (keys old.m)
       else match uf[e.id]? with
-        | some tgt => tgt.id == e.id && subset (valuesVec e.m) (keys old.m)
+        | some tgt => tgt.id == e.id && subset (valuesVec e.m) (keys old.m) &&
+            -- the map of a merge is a bijection from the target's slots onto the absorbed leader's slots (the hypothesis
+            -- `IsBij` of `eq_survives_merge`)
+            subset (keys old.m) (valuesVec e.m) && sameSet (keys e.m) (keys tgt.m) && isBijection e.m
         | none => false
 
 /-- a sequence of writes, each checked against its guard -/
